@@ -261,6 +261,20 @@ TBigFail ==
   /\ Ev("bigfail") /\ inst' = NoInst
   /\ Report(l, "P:C08:outcome", {1})
 
+\* large renderings (C19, Layer P only): every node id once, the leaf column = the retained
+\* values in key order (e.expvals: computed by the harness from its own input), loaded = fresh
+RenderBigBad(e) ==
+  LET n == Len(e.ids) IN
+  (IF e.pan # "" \/ e.statpan # "" THEN {"panic"} ELSE {})
+  \cup (IF e.pan = "" /\ e.noid # 0 THEN {"line-without-node-id"} ELSE {})
+  \cup (IF e.pan = "" /\ (n # e.nodecnt \/ {e.ids[x] : x \in 1..n} # 0..(n - 1)) THEN {"each-node-once"} ELSE {})
+  \cup (IF e.pan = "" /\ (e.badval # 0 \/ e.leafvals # e.expvals) THEN {"leaf-values"} ELSE {})
+TRenderBig ==
+  /\ Ev("renderbig") /\ inst' = NoInst
+  /\ LET e == Trace[l] IN
+     /\ Report(l, "P:C19:render", RenderBigBad(e))
+     /\ Report(l, "P:C19:roundtrip", IF e.sameasfresh = 0 THEN {1} ELSE {})
+
 TModes ==
   /\ Ev("modes")
   /\ inst' = NoInst
@@ -273,7 +287,7 @@ TModes ==
      /\ Report(l, "P:C13:onkeys", b.onkeys)
      /\ LayerM => Report(l, "M:modes", ModesDrift(e))
 
-TNext == UNCHANGED iters /\ (TNew \/ TProto \/ TTable \/ TTableErr \/ TStat \/ TObsK \/ TObsQ \/ TLoad \/ TModes \/ TRender \/ TMcheck \/ TIndex \/ TLegacy \/ TCalibration \/ TScan \/ TObsBig \/ TBigFail)
+TNext == UNCHANGED iters /\ (TNew \/ TProto \/ TTable \/ TTableErr \/ TStat \/ TObsK \/ TObsQ \/ TLoad \/ TModes \/ TRender \/ TMcheck \/ TIndex \/ TLegacy \/ TCalibration \/ TScan \/ TObsBig \/ TBigFail \/ TRenderBig)
 
 \* every line consumed: l - 1 = Len(Trace) in the last state
 Accepted == TLCGet("stats").diameter - 1 = Len(Trace)
